@@ -359,3 +359,36 @@ func post_onReceive_other(c *Conn, msg mqtt.Message, res0 error) bool {
 	}
 	return true
 }
+
+// ---------------------------------------------------------------------------------------------------------
+// The connection loop (C09, C08): every packet is decoded with the CONFIGURED size limit (Config.MaxMessageBytes:
+// between 1 byte and 64 KiB whatever the configuration says - proved in internal/config) and handed to onReceive;
+// a decode error or a handler error ends the loop (and, through the deferred Close, the connection). Explored for
+// two turns of the loop (stated bounded).
+//@ assume github.com/emitter-io/emitter/internal/network/mqtt.DecodePacket iface for=Process
+//@ assume (*Conn).onReceive iface for=Process
+//@ assume (*Conn).Close iface for=Process
+//@ assume (*github.com/emitter-io/emitter/internal/config.Config).MaxMessageBytes iface for=Process
+//@ assume (*github.com/kelindar/rate.Limiter).Limit iface for=Process
+
+//@ verify (*Conn).Process pre=pre_Conn_Process post=post_Conn_Process props=C09,C08
+//@ loop (*Conn).Process 0 unroll 2 bounded
+func pre_Conn_Process(c *Conn) bool {
+	return c != nil && c.service != nil && c.service.Config != nil && c.socket != nil && c.limit != nil
+}
+func post_Conn_Process(c *Conn, res0 error) bool {
+	m := vs.TraceFind("MaxMessageBytes")
+	if m < 0 || vs.TraceCount("MaxMessageBytes") != 1 {
+		return false
+	}
+	n := vs.TraceCount("DecodePacket")
+	return vs.Forall(0, n, func(k int) bool {
+		d := vs.TraceFindNth("DecodePacket", k)
+		return m < d && vs.TraceArg[int64](d, 1) == vs.TraceRet[int64](m, 0) // the configured limit, every time
+	}) && vs.TraceCount("onReceive") <= n && vs.Forall(0, vs.TraceCount("onReceive"), func(k int) bool {
+		// what is handled is what was decoded (the k-th handled packet is one that decoded without error)
+		o := vs.TraceFindNth("onReceive", k)
+		return o >= 1 && vs.TraceIs(o-1, "DecodePacket") && vs.TraceRet[error](o-1, 1) == nil &&
+			vs.TraceArg[mqtt.Message](o, 1) == vs.TraceRet[mqtt.Message](o-1, 0)
+	})
+}
